@@ -4,7 +4,7 @@
    C17-rewriter-line-offsets, source-list and keyword edits), read back by the parser model
    of C02 (coq/Syntax/{Lexer,Parser}.v). *)
 From MV Require Import Base.Strs Syntax.Lexer Syntax.Parser Syntax.LexerFacts Syntax.ParserMono
-  Syntax.AstPrint Syntax.EscapeFacts Syntax.NumFacts Syntax.RoundTrip Syntax.StripMeaning Syntax.Shipped
+  Syntax.AstPrint Syntax.EscapeFacts Syntax.NumFacts Syntax.RoundTrip Syntax.RoundTripFuel Syntax.ParserDet Syntax.StripMeaning Syntax.Shipped
   Rewrite.Splice Rewrite.Edits Rewrite.Proofs.
 From Coq Require Import Permutation.
 
@@ -223,3 +223,32 @@ Theorem C17_kw_sequence_frame : forall V (ops : list (kw_op V)) (d : kws V) (ks 
   fold_right (fun k acc => kw_others V k acc) d ks.
 Proof. intros V. exact (@kw_sequence_frame V). Qed.
 Print Assumptions C17_kw_sequence_frame.
+
+(* Which build file the strings of a source list are relative to (Rewriter.get_relto): strings that
+   pass through a files() call belong to the directory of that call's build file, whatever the
+   directory of the target is; plain strings belong to the directory of the target's build file. *)
+Theorem C17_relto_through_call : forall pre f rest,
+  forallb (fun n => negb (pn_func n)) pre = true -> pn_func f = true ->
+  relto [pre ++ f :: rest] = Some (pn_dir f).
+Proof. exact relto_through_call. Qed.
+Print Assumptions C17_relto_through_call.
+Theorem C17_relto_plain : forall pre target,
+  forallb (fun n => negb (pn_func n)) pre = true -> pn_func target = true ->
+  relto [pre ++ [target]] = Some (pn_dir target).
+Proof. exact relto_plain. Qed.
+Print Assumptions C17_relto_plain.
+
+(* The round trip at the fuel [parse] really uses (30 * tokens + 60): with C02_parser_total's fuel
+   bound and the determinacy of the parser in its fuel, "for all sufficiently large fuel" in
+   C17_print_parse_roundtrip becomes "for the parser as it runs". *)
+Theorem C17_print_parse_roundtrip_fuel : forall ep e ts,
+  printable e = true -> map tkt ts = ptoks e ->
+  exists nd, strip_parens (abs nd) = strip_parens e /\
+    forall n, n >= parser_fuel (length ts) -> parse_tokens n (mkP ts None ep false) = Ok (BLine nd None BNil).
+Proof. exact RoundTripFuel.print_parse_statement_fuel. Qed.
+Print Assumptions C17_print_parse_roundtrip_fuel.
+(* a tree or a located rejection does not depend on the fuel *)
+Theorem C17_parser_fuel_deterministic : forall n m st,
+  n <= m -> parse_tokens n st <> Fuel -> parse_tokens m st = parse_tokens n st.
+Proof. exact ParserDet.parse_tokens_det. Qed.
+Print Assumptions C17_parser_fuel_deterministic.
